@@ -38,10 +38,16 @@ type c16Case struct {
 	Dst  string     `json:"dst"` // fat12 fat16 fat32 ext4 (copy); mapfs fat32 ext4 squashfs (compare: materialisation of B)
 	Mut  *c16Mut    `json:"mut,omitempty"`
 	Full bool       `json:"full,omitempty"` // copy into a destination that is too small (must fail)
+	Big  *c16Big    `json:"big,omitempty"`  // mode bigcopy: the streaming path for files above 64 MiB
 }
 
 func genC16(t *rapid.T) any {
 	c := c16Case{}
+	if rapid.IntRange(0, 39).Draw(t, "bigcopy") == 0 {
+		c.Mode = "bigcopy"
+		c.Big = genC16Big(t)
+		return c
+	}
 	c.Mode = rapid.SampledFrom([]string{"copy", "copy", "compare"}).Draw(t, "mode")
 	if c.Mode == "copy" {
 		c.Src = rapid.SampledFrom([]string{"dirfs", "mapfs", "fat32", "ext4", "iso9660", "squashfs"}).Draw(t, "src")
@@ -218,6 +224,10 @@ var c16Excluded = map[string]bool{"lost+found": true, ".DS_Store": true, "System
 
 func execC16(ci any) (r hx.Result) {
 	c := ci.(c16Case)
+	if c.Mode == "bigcopy" && c.Big != nil {
+		execC16Big(&r, c.Big)
+		return
+	}
 	r.Class("mode:" + c.Mode)
 	scratch, err := os.MkdirTemp("", "verif_c16")
 	if err != nil {
@@ -611,7 +621,7 @@ func c16Ext4With(tree []mk.Entry, override map[string][]byte) (iofs.FS, error) {
 
 func init() {
 	hx.Register(&hx.Spec{ID: "C16", Gen: genC16, Exec: execC16, New: func() any { return new(c16Case) },
-		Rule: "case = generated tree (non-aliasing FAT-legal names, files up to 200 KB incl. sizes around the 32 KiB compare buffer) and either a copy pairing source in {os.DirFS, MapFS, fat32, ext4, iso9660 RR, squashfs} x destination in {fat12, fat16, fat32, ext4} (plus excluded names, symlinks where both sides hold them, a destination that is too small) or a CompareFS pair A (MapFS) vs B (MapFS / dirfs / fat32 / ext4 / squashfs) that is equal or differs by exactly one mutation (byte flip at a buffer boundary, length +-1, missing entry, extra entry, file<->directory), checked in both argument orders; the tree diff that defines 'equal' is computed by the harness on the models; non-trivial = >= 2 levels and a file > 32 KiB (and a mutation for compare); distinct by hash of the case JSON"})
+		Rule: "case = generated tree (non-aliasing FAT-legal names, files up to 200 KB incl. sizes around the 32 KiB compare buffer) and either a copy pairing source in {os.DirFS, MapFS, fat32, ext4, iso9660 RR, squashfs} x destination in {fat12, fat16, fat32, ext4} (plus excluded names, symlinks where both sides hold them, a destination that is too small) or a CompareFS pair A (MapFS) vs B (MapFS / dirfs / fat32 / ext4 / squashfs) that is equal or differs by exactly one mutation (byte flip at a buffer boundary, length +-1, missing entry, extra entry, file<->directory), checked in both argument orders; or (mode bigcopy, 1 case in 40) a synthetic source holding one file of 64 MiB +0 (rarely) /+1/+2/+32767/+32768/+32769/+65536/+100000/+1 MiB+5/+3 MiB+12345 bytes whose Read delivers data with io.EOF, EOF separately, at most 1000 bytes, or ragged pieces, copied into an in-memory filesystem.FileSystem and compared by SHA-256 (the streaming path of CopyFileSystem); the tree diff that defines 'equal' is computed by the harness on the models; non-trivial = >= 2 levels and a file > 32 KiB (and a mutation for compare), every bigcopy case; distinct by hash of the case JSON"})
 }
 
 func TestC16(t *testing.T) { hx.RunProp(t, "C16") }
